@@ -868,24 +868,30 @@ func (sc *segmentController[T, O]) create(ctx context.Context, start time.Time) 
 	// Anchor stdEnd to the aligned start before any bump so end stays on the
 	// global grid even when start is bumped past a legacy off-grid neighbor;
 	// subsequent segments then self-heal back to the grid.
+	ts := start
 	alignedStart := options.SegmentInterval.Standard(start)
 	stdEnd := options.SegmentInterval.NextTime(alignedStart)
 	start = alignedStart
-	// sc.lst is sorted ascending by start time with non-overlapping ranges;
-	// a single pass bumps start past every legacy segment that swallows it
-	// (each next segment.Start >= previous.End).
+	end := stdEnd
+	// sc.lst is sorted ascending by start time with non-overlapping ranges and
+	// none of them contains ts. Shrink the grid bucket to the gap around ts:
+	// bump start past every legacy segment that ends at or before ts, and cap
+	// end at the first segment that starts after ts. The new segment therefore
+	// always contains ts and never overlaps a neighbor.
 	var next *segment[T, O]
 	for _, s := range sc.lst {
-		if s.Contains(start.UnixNano()) {
-			start = s.End
+		if !s.End.After(ts) {
+			if s.End.After(start) {
+				start = s.End
+			}
 			continue
 		}
-		if next == nil && s.Start.After(start) {
+		if s.Start.Before(end) {
 			next = s
 		}
+		break
 	}
-	var end time.Time
-	if next != nil && next.Start.Before(stdEnd) {
+	if next != nil {
 		// `next` starts inside the current grid bucket - a legacy off-grid
 		// segment whose TTL hasn't elapsed. Cap end at next.Start to avoid
 		// overlap; surfacing this at Info level lets operators see the
@@ -897,8 +903,6 @@ func (sc *segmentController[T, O]) create(ctx context.Context, start time.Time) 
 			Stringer("stdEnd", stdEnd).
 			Msg("new segment span is shorter than configured SegmentInterval due to an unaligned legacy neighbor")
 		end = next.Start
-	} else {
-		end = stdEnd
 	}
 	segPath := path.Join(sc.location, fmt.Sprintf(segTemplate, sc.format(start)))
 	sc.lfs.MkdirPanicIfExist(segPath, DirPerm)
